@@ -7,6 +7,7 @@ import (
 	"encoding/hex"
 	"encoding/json"
 	"fmt"
+	"github.com/insomniacslk/dhcp/dhcpv4"
 	"net"
 	"sort"
 	"strings"
@@ -279,6 +280,56 @@ func eval6(r *ev.Run, h handler.Handler6, c Case, own []byte, drop bool, class s
 	}
 }
 
+// replyKinds4: whatever kind of reply an earlier plugin has made of the stub (OFFER, ACK, NAK, a
+// freshly built object), server_id stamps this server's address into siaddr and option 54.
+func replyKinds4(r *ev.Run, sid handler.Handler4, args []string, own []byte) {
+	for _, kind := range []string{"nak", "nak-fresh", "ack-fresh", "offer-with-other-siaddr"} {
+		kind := kind
+		shaper := func(req, resp *dhcpv4.DHCPv4) (*dhcpv4.DHCPv4, bool) {
+			switch kind {
+			case "nak":
+				resp.UpdateOption(dhcpv4.OptMessageType(dhcpv4.MessageTypeNak))
+			case "nak-fresh":
+				n, _ := dhcpv4.NewReplyFromRequest(req, dhcpv4.WithMessageType(dhcpv4.MessageTypeNak))
+				return n, false
+			case "ack-fresh":
+				n, _ := dhcpv4.NewReplyFromRequest(req, dhcpv4.WithMessageType(dhcpv4.MessageTypeAck))
+				return n, false
+			case "offer-with-other-siaddr":
+				resp.ServerIPAddr = net.IPv4(198, 51, 100, 7).To4()
+			}
+			return resp, false
+		}
+		for _, mt := range []byte{1, 3} {
+			for _, gi := range []bool{false, true} {
+				p := pkt.V4{Op: 1, HType: 1, HLen: 6, Xid: 0x14141415, Flags: 0x8000, Opts: []pkt.Opt4{{Code: 53, Data: []byte{mt}}}}
+				copy(p.CHAddr[:], []byte{2, 0, 0, 0, 1, 0x14})
+				if gi {
+					p.GI = [4]byte{10, 0, 0, 1}
+				}
+				c := Case{4, args, hex.EncodeToString(p.Bytes()), false}
+				out := srv.Run4(net.Interface{}, []handler.Handler4{shaper, sid}, p.Bytes(), 1, nil)
+				r.Eval(fmt.Sprintf("v4/reply-kind/%s/replies=%d", kind, len(out.Sent)))
+				if out.Panic != "" {
+					r.Violate("C14/panic", out.Panic, c)
+					continue
+				}
+				if len(out.Sent) != 1 {
+					continue
+				}
+				rep, err := pkt.ParseV4(out.Sent[0].Data)
+				if err != nil {
+					continue
+				}
+				d54, n54 := rep.Get(54)
+				if !bytes.Equal(rep.SI[:], own) || n54 != 1 || !bytes.Equal(d54, own) {
+					r.Violate("C14/v4/reply-server-id/reply-kind-"+kind, fmt.Sprintf("chain [plugin making the reply a %s, server_id %s]: reply (type %d) siaddr=%v option54=%v (x%d), want %v in both", kind, args[0], rep.MsgType(), net.IP(rep.SI[:]), net.IP(d54), n54, net.IP(own)), c)
+				}
+			}
+		}
+	}
+}
+
 func run4(r *ev.Run, args []string) {
 	h, err := serverid.Plugin.Setup4(args...)
 	if err != nil {
@@ -287,6 +338,7 @@ func run4(r *ev.Run, args []string) {
 	}
 	own := net.ParseIP(args[0]).To4()
 	defer chains4(r, h, args, own)
+	defer replyKinds4(r, h, args, own)
 	other := []byte{198, 51, 100, 7}
 	vals := map[string][]byte{"zero": {0, 0, 0, 0}, "own": own, "other": other}
 	for _, mt := range []byte{1, 3} {
